@@ -741,7 +741,9 @@ class ESME:
                 command_status=header.command_status.name,
                 sequence_num=header.sequence_num,
             )
-            await self._send_data(GenericNack(header.sequence_num))
+            await self._send_data(
+                GenericNack(header.sequence_num, SmppCommandStatus.ESME_RINVCMDID)
+            )
             return None
 
         message_class: Type[SmppMessage] = MESSAGE_TYPE_MAP[header.smpp_command]
@@ -762,7 +764,9 @@ class ESME:
                     sequence_num=header.sequence_num,
                     pdu=pdu.hex(),
                 )
-            await self._send_data(GenericNack(header.sequence_num))
+            await self._send_data(
+                GenericNack(header.sequence_num, SmppCommandStatus.ESME_RUNKNOWNERR)
+            )
             return None
         if isinstance(smpp_message, DeliverSm):
             if not smpp_message.is_receipt():
